@@ -221,6 +221,55 @@ fn check(args: &[String]) {
         let _ = std::fs::remove_file(format!("{}.il", df));
         seam = json!(seam_tot);
     }
+    // grid phase: the small finite dimensions enumerated completely (see engine::grid_cases)
+    let mut grid_json = Value::Null;
+    {
+        let reg = sim::registry::build();
+        let anchors = Anchors::compute(&reg);
+        install_quiet_panic_hook();
+        let known = Known::load(&known_path);
+        let tg = Instant::now();
+        let cases = sim::engine::grid_cases(&reg, prop, seed);
+        let (mut gops, mut gcalls, mut gviol) = (0u64, 0u64, 0u64);
+        for (ci, c) in cases.iter().enumerate() {
+            let r = execute_mode(&reg, &anchors, &c.cfg, &c.ops, seed ^ ci as u64, Some(prop.name()), &known, false);
+            gops += r.stats.steps - r.stats.skipped;
+            gcalls += r.stats.cipher_calls;
+            stats.add(&r.stats);
+            if let Some(e) = &r.harness_error {
+                herr.push(format!("grid case {}: {}", c.label, e));
+            }
+            for n in &r.notes {
+                if let Some((sg, w)) = known.matches(n) {
+                    known_hits.insert(sg.clone(), w.clone());
+                }
+            }
+            if r.violation.is_some() && gviol < 3 {
+                gviol += 1;
+                let v = r.violation.clone().unwrap();
+                let base = format!("{}/{}-grid-{}-{}", replay_dir, prop.name(), seed, ci);
+                let _ = std::fs::create_dir_all(&replay_dir);
+                let (path, vj) = match sim::engine::shrink(&reg, &anchors, &r, &known, prop.name()) {
+                    Some(sh) => {
+                        let p = format!("{}.min.json", base);
+                        let _ = std::fs::write(&p, serde_json::to_string_pretty(&replay_json(&reg, prop.name(), r.seed, &sh.cfg, &sh.ops, &sh.violation, json!({"grid_case": c.label, "minimised": true, "ops_before": r.ops.len(), "ops_after": sh.ops.len()}))).unwrap());
+                        (p, sh.violation.to_json())
+                    }
+                    None => {
+                        let p = format!("{}.orig.json", base);
+                        let _ = std::fs::write(&p, serde_json::to_string_pretty(&replay_json(&reg, prop.name(), r.seed, &r.cfg, &r.ops[..=v.step.min(r.ops.len() - 1)], &v, json!({"grid_case": c.label, "minimised": false}))).unwrap());
+                        (p, v.to_json())
+                    }
+                };
+                violations.push(json!({"replay": path, "violation": vj, "run": format!("grid:{}", c.label), "seed": r.seed}));
+            }
+        }
+        runs += cases.len() as u64;
+        grid_json = json!({
+            "what": "complete enumeration of the small finite dimensions through the same World and oracles: every family x all linked build variants at once x both detection arms (where a variant goes through detection) x every role x {key lengths: all accepted ones for C03, shortest and longest otherwise} x every call shape x batch-length classes {0,1,2,par-1,par,par+1,2par+1} x placement classes {in place, in place at the arena end, out above with a gap, out below touching, out at the arena end}; for C12 additionally every construction route up to depth 3 (new / new_from_slice, clone, clone of clone, From<Enc> and From<&Enc> to either target, clone of converted) with the source dropped first or kept, relocation before use. Keys and block contents are sampled",
+            "cases": cases.len(), "operations_applied": gops, "cipher_calls": gcalls, "wall_s": tg.elapsed().as_secs_f64(),
+        });
+    }
     // cold-start phase (C15, C12): one history per fresh process, oracles deferred
     let cold_total: u64 = arg(args, "--cold").and_then(|s| s.parse().ok()).unwrap_or(match (prop, tier.as_str()) {
         (Prop::C15, "quick") | (Prop::C12, "quick") => 3000,
@@ -305,6 +354,7 @@ fn check(args: &[String]) {
             },
             "h_portable_xor": format!("{:016x}", portable_xor),
             "cold_start": cold_json,
+            "grid": grid_json,
             "notes": notes,
         },
         "assumptions": [
